@@ -268,7 +268,8 @@ func inRange(ip net.IP, CIDRs []string) bool {
 		cidr := CIDRs[i]
 		_, network, err := net.ParseCIDR(cidr)
 		if err != nil {
-			return false
+			// An unparsable entry matches nothing; it must not hide the entries after it.
+			continue
 		}
 		if network.Contains(ip) {
 			return true
